@@ -82,6 +82,12 @@ def lpm_case(cfg, chooser):
     return {'proto': 'lpm', 'cfg': cfg, 'run': r}
 
 
+def api_case(cfg, chooser):
+    fn = make_fn(cfg['fm'], cfg['fr'], cfg['fcls'])
+    r = sched.ApiLpmRun(cfg['via'], cfg['w'], cfg['b'], cfg['items'], fn, cfg['stop'], chooser, cfg['with_items']).run()
+    return {'proto': 'api', 'cfg': cfg, 'run': r}
+
+
 def request_of(case):
     cfg, r = case['cfg'], case['run']
     if case['proto'] == 'stp':
@@ -114,6 +120,7 @@ def oracle(case, which):
     cfg, r = case['cfg'], case['run']
     out = []
     stp = case['proto'] == 'stp'
+    api = case['proto'] == 'api'
     stop = cfg['stop']
     early = stop is not None and stop <= len(r.delivered) and (stop < 10 ** 6)
     if stp:
@@ -149,6 +156,14 @@ def oracle(case, which):
                 if e['k'] == 'start' and e['i'] in cancelled_ok:
                     out.append(('cancelled_future_started', {'i': e['i']}))
             if any(e['k'] == 'close' for e in r.events):
+                # a computation that starts after the consumer stopped must at least have been subject to the
+                # cancel loop (it then lost the race against a free worker); one that is started and never
+                # cancelled was simply executed instead of cancelled
+                ci = next(i for i, e in enumerate(r.events) if e['k'] == 'close')
+                for i, e in enumerate(r.events[ci:], ci):
+                    if e['k'] == 'start' and not any(x['k'] == 'cancel' and x.get('i') == e['i'] for x in r.events[i:]):
+                        out.append(('executed_instead_of_cancelled', {'future': e['i']}))
+                        break
                 left = [f.idx for f in r.pool.futs if f.state == 'pending']
                 if left:
                     out.append(('pending_after_close', {'futures': left}))
@@ -245,6 +260,22 @@ def run(rep, prop, which):
             'deadlocks': 0}
     distinct = set()
     max_choice_points = 0
+    # the same pool reached through the dataset API (ParMapDataset, multi-worker PrefetchDataset): oracles only
+    api_cases = []
+    for i in range(n_random // 2):
+        w = rng.choice([1, 2, 3])
+        n = rng.choice([0, 1, 3, 5, 8, 12])
+        cfg = {'via': rng.choice(['parmap', 'parmap', 'prefetch']), 'w': w, 'b': w + rng.choice([0, 0, 1, 2]),
+               'items': [rng.randint(0, 9) for _ in range(n)], 'ending': None,
+               'fm': rng.choice([0, 0, 0, 3]), 'fr': rng.randrange(3), 'fcls': 'UserA',
+               'stop': rng.choice([None, None, 1, 2, 3, n]), 'with_items': rng.random() < 0.5}
+        if cfg['via'] == 'prefetch' and w == 1:
+            cfg['w'], cfg['b'] = 2, 2 + rng.choice([0, 1])
+        api_cases.append(api_case(cfg, sched.RandomChooser(rng.randrange(1 << 30))))
+    for c in api_cases:
+        for clause, detail in oracle(c, which):
+            fails.append((c, clause, detail))
+    dist['api'] = len(api_cases)
     for c, rp in zip(cases, replies):
         r = c['run']
         dist[c['proto']] += 1
@@ -316,6 +347,13 @@ def run(rep, prop, which):
 def replay(prop, which, j):
     cfg = j['config']
     ch = sched.PrefixChooser(j.get('schedule', []), sticky=False)
+    if j['protocol'] == 'api':
+        c = api_case(cfg, ch)
+        fails = oracle(c, which)
+        print(json.dumps({'config': cfg, 'events': c['run'].events, 'delivered': c['run'].delivered, 'oracle_failures': fails}, indent=1, default=str))
+        if fails:
+            print(f'VIOLATION property={prop} replay=(replayed)')
+        return 1 if fails else 0
     c = (stp_case if j['protocol'] == 'stp' else lpm_case)(cfg, ch)
     rp = model.ask([request_of(c)])[0]
     fails = oracle(c, which)
